@@ -222,8 +222,28 @@ class Flow:
                     consts.append(rv.ops[0].value())
                 else:
                     other.append((bb_, idx))
-            if len(other) != 1 or not consts or len(set(consts)) != 1 or consts[0] == truth:
+            if len(other) != 1 or not consts or len(set(consts)) != 1:
                 return []
+            if consts[0] == truth:
+                # the switch value may stem from a constant definition - unless none of them reaches the switch any more (their paths were
+                # threaded past it, normalize.py): then the value is the one of the remaining definition on both edges
+                defblocks = set(d_[0] for d_ in ds)
+                for (cb, cidx, ckind) in ds:
+                    if (cb, cidx) == other[0]:
+                        continue
+                    if cb == n[1]:
+                        return []
+                    seen, st = set(), list(b.succs(cb))
+                    while st:
+                        q = st.pop()
+                        if q in seen:
+                            continue
+                        seen.add(q)
+                        if q == n[1]:
+                            return []
+                        if q in defblocks:
+                            continue
+                        st.extend(b.succs(q))
             bb_, idx = other[0]
             out = list(self.facts_at(bb_))
             if idx != "term":
@@ -468,9 +488,10 @@ class Slicer:
                 out.append(self.x.operand(self.body.blocks[n[1]].term.discr))
         return out
 
-    def sources(self, e):
+    def sources(self, e, control=True):
         """set of leaf descriptors reachable backwards from expression e through named locals (flow-insensitive,
-        field-sensitive on the first level): every variable read on the way ('var:name.proj'), constants, callees."""
+        field-sensitive on the first level): every variable read on the way ('var:name.proj'), constants, callees.
+        control=False: data dependences only (the conditions that select between several definitions are not followed)."""
         b = self.body
         seen_vars = set()
         out = set()
@@ -486,7 +507,8 @@ class Slicer:
                         seen_vars.add(key)
                         ds = self.defs_of(s[1], s[2], with_bb=True)
                         work.extend(e for e, _ in ds)
-                        work.extend(self.control_exprs([bb for _, bb in ds]))
+                        if control:
+                            work.extend(self.control_exprs([bb for _, bb in ds]))
                 elif k == "const":
                     out.add("const:" + str(s[2]))
                 elif k == "proj":
@@ -504,7 +526,8 @@ class Slicer:
                             if kind in ("whole", "call", "partial"):
                                 work.append(self.x.def_expr((bb, idx), self.x.depth))
                                 dbbs.append(bb)
-                        work.extend(self.control_exprs(dbbs))
+                        if control:
+                            work.extend(self.control_exprs(dbbs))
                 elif k == "closure":
                     out.add("closure:" + s[1])
                 elif k == "aggr":
